@@ -28,7 +28,7 @@ fn apply_on(
 ) -> ImplRes {
     match op {
         Op::Match(q) => {
-            match rec.with_budget(CALL_BUDGET + 200_000, || level.match_order(*q, oid(TAKER), generator)) {
+            match rec.with_budget(CALL_BUDGET + 200_000, || level.match_order(*q, oid(cfg.taker), generator)) {
                 Ok(mr) => ImplRes::Matched(match_obs(&mr)),
                 Err(BudgetOrPanic::Budget) => ImplRes::NoReturn,
                 Err(BudgetOrPanic::Panic(m)) => ImplRes::Panicked(m),
